@@ -483,19 +483,20 @@ func (x *Exec) Do(i int) StepResult {
 		if err != nil {
 			panic(err)
 		}
+		// (building the source can itself fail when the monitor injects write failures: then nothing is merged)
 		for k := 0; k < s.PC; k++ {
 			if _, err := tmp.Append(x.W.Ctx, []byte(fmt.Sprintf("%d.%d/rj%d.%d", x.H.Seed, x.H.Idx, i, k)), nil); err != nil {
-				panic(err)
+				return StepResult{Err: err}
 			}
 		}
 		if s.Payload == "denied" {
 			if _, err := tmp.Append(x.W.Ctx, []byte(fmt.Sprintf("%s%d.%d/rj%d", DenyPrefix, x.H.Seed, x.H.Idx, i)), nil); err != nil {
-				panic(err)
+				return StepResult{Err: err}
 			}
 		} else {
 			e, err := tmp.Append(x.W.Ctx, []byte(fmt.Sprintf("%d.%d/rjbad%d", x.H.Seed, x.H.Idx, i)), nil)
 			if err != nil {
-				panic(err)
+				return StepResult{Err: err}
 			}
 			sig := e.GetSig()
 			bad := append([]byte(nil), sig...)
